@@ -101,6 +101,8 @@ def requests_for(ty, fn, rng, nsamples):
         for k in range(nops):
             if fn == "atan2":
                 r = rng.choice([1.0, -2.0, 0.5, 0.0, -0.2, 0.4]) if k == 0 else rng.choice([0.0, 1.5, -0.5, 2.0, -0.4])
+            elif fn == "powd" and k == 1:
+                r = rng.choice([0.0, 1.0, 2.0, 0.5, -1.5, 3.0])
             elif fn in ("div_oo", "div_or", "div_ro", "div_rr", "div_assign_oo") and k == 1:
                 r = rng.choice([2.0, -0.5, 4.0, 1.0, -8.0])
             elif fn == "powf" and sc and (sc[0] >= 1.0) and rng.random() < 0.3:
